@@ -224,4 +224,76 @@ theorem regress_shift (s : K) (ds : List (K × K × K)) (hd : det ds ≠ 0) :
     congr 1
     ring
 
+/-- Moving every blow by `-x0` moves the fitted start by `interval · x0` and leaves the interval. -/
+theorem regress_shift_blow (x0 : K) (ds : List (K × K × K)) (hd : det ds ≠ 0) :
+    regress (ds.map (fun d => (d.1 - x0, d.2.1, d.2.2))) = ((regress ds).1 + (regress ds).2 * x0, (regress ds).2) ∧
+    det (ds.map (fun d => (d.1 - x0, d.2.1, d.2.2))) = det ds := by
+  have hS : ∀ ds : List (K × K × K),
+      sW (ds.map (fun d => (d.1 - x0, d.2.1, d.2.2))) = sW ds ∧
+      sWB (ds.map (fun d => (d.1 - x0, d.2.1, d.2.2))) = sWB ds - x0 * sW ds ∧
+      sWBB (ds.map (fun d => (d.1 - x0, d.2.1, d.2.2))) = sWBB ds - 2 * x0 * sWB ds + x0 * x0 * sW ds ∧
+      sWT (ds.map (fun d => (d.1 - x0, d.2.1, d.2.2))) = sWT ds ∧
+      sWBT (ds.map (fun d => (d.1 - x0, d.2.1, d.2.2))) = sWBT ds - x0 * sWT ds := by
+    intro ds
+    induction ds with
+    | nil => simp [sW, sWB, sWBB, sWT, sWBT]
+    | cons d ds ih =>
+      obtain ⟨b, t, w⟩ := d
+      obtain ⟨i0, i1, i2, i3, i4⟩ := ih
+      simp only [List.map_cons, sW, sWB, sWBB, sWT, sWBT, i0, i1, i2, i3, i4]
+      refine ⟨trivial, ?_, ?_, trivial, ?_⟩ <;> ring
+  obtain ⟨e0, e1, e2, e3, e4⟩ := hS ds
+  have hdet : det (ds.map (fun d => (d.1 - x0, d.2.1, d.2.2))) = det ds := by
+    simp only [det, e0, e1, e2]; ring
+  refine ⟨?_, hdet⟩
+  rw [regress_eq, regress_eq, hdet, e0, e1, e2, e3, e4]
+  have hd' := hd
+  ext
+  · simp only []
+    field_simp
+    ring
+  · simp only []
+    field_simp
+    ring
+
+/-- **The centred evaluation is the same fit**: `regressCentred`, which the driver evaluates at `Float`
+to cross-check the implementation's `numpy` results, equals `regress`, which the theorems are about. -/
+theorem regressCentred_eq (ds : List (K × K × K)) (hd : det ds ≠ 0) : regressCentred ds = regress ds := by
+  unfold regressCentred
+  cases ds with
+  | nil => rfl
+  | cons d rest =>
+    obtain ⟨x0, y0, w0⟩ := d
+    simp only []
+    generalize hds : ((x0, y0, w0) :: rest : List (K × K × K)) = ds at hd ⊢
+    -- first move the times, then the blows
+    have h1 := regress_shift (-y0) ds hd
+    have hdet1 : det (ds.map (fun d => (d.1, d.2.1 + -y0, d.2.2))) = det ds := by
+      -- the determinant only involves blows and weights
+      have hS : ∀ l : List (K × K × K),
+          sW (l.map (fun d => (d.1, d.2.1 + -y0, d.2.2))) = sW l ∧
+          sWB (l.map (fun d => (d.1, d.2.1 + -y0, d.2.2))) = sWB l ∧
+          sWBB (l.map (fun d => (d.1, d.2.1 + -y0, d.2.2))) = sWBB l := by
+        intro l
+        induction l with
+        | nil => simp [sW, sWB, sWBB]
+        | cons d l ih =>
+          obtain ⟨b, t, w⟩ := d
+          obtain ⟨i0, i1, i2⟩ := ih
+          simp only [List.map_cons, sW, sWB, sWBB, i0, i1, i2]
+          exact ⟨trivial, trivial, trivial⟩
+      obtain ⟨e0, e1, e2⟩ := hS ds
+      simp only [det, e0, e1, e2]
+    have h2 := (regress_shift_blow x0 (ds.map (fun d => (d.1, d.2.1 + -y0, d.2.2))) (by rw [hdet1]; exact hd)).1
+    have hmap : (ds.map (fun d => (d.1, d.2.1 + -y0, d.2.2))).map (fun d => (d.1 - x0, d.2.1, d.2.2)) =
+        ds.map (fun d => (d.1 - x0, d.2.1 - y0, d.2.2)) := by
+      rw [List.map_map]
+      apply List.map_congr_left
+      intro d _
+      simp [sub_eq_add_neg]
+    rw [hmap, h1] at h2
+    rw [h2]
+    ext
+    · simp only []; ring
+    · rfl
 end Wheatley
